@@ -89,7 +89,7 @@ contract(F, "Fiber.getPayload",
              "plain": dict(ensures=[
                  "forall(lambda k: implies(self.coords[k] == coord, result is self.payloads[k]), 0, len(self.coords))",
                  "implies(forall(lambda k: self.coords[k] != coord, 0, len(self.coords)), fresh(result) and typeis(result, 'Payload') and result.value == self.g_default)",
-                 "self._saved_pos == old(self._saved_pos)"]),
+                 "self._saved_pos == old(self._saved_pos)", "self._saved_count == old(self._saved_count)", "self._saved_dist == old(self._saved_dist)"]),
              "start_pos": dict(requires=[LEGAL_START], ensures=[
                  "forall(lambda k: implies(self.coords[k] == coord, result is self.payloads[k]), 0, len(self.coords))",
                  "implies(forall(lambda k: self.coords[k] != coord, 0, len(self.coords)), fresh(result) and typeis(result, 'Payload') and result.value == self.g_default)",
